@@ -16,6 +16,18 @@
   * the item's nested `tokenize_block` reads one `Paragraph` with the title (the kids' first line
     interrupts it: `List.check_interrupts_paragraph`), then a `List` for the kids — recursively;
   * `List.read` loops over the siblings with the same leader "-"; nothing is loose (no blank lines).
+
+  Final statements (end of the file):
+  * `C19_outline_parses`: `tokenize_block` / `blockPhase` on the lines of a non-empty outline with plain-word titles
+    returns exactly one `List`, `expItems 0 n os` - nested as the forest (`needL_eq`: the gas is `K + 1` per heading);
+  * `C19_outline_lines`: `Toc.tocLines (flatten lv os)` are these lines (base level `lv`);
+  * `C19_outline_toc`, `C19_toc_nested`: the two together, the second for a heading list `hs` with `isOutline hs`
+    (`isOutline_eq_levels`: no heading shallower than the first, none more than one level deeper than the one before);
+  * `C19_config_current_list`: the token lists of the Html/Toc renderer (and the default ones) satisfy `ListCfg`;
+  * a sample outline (depth 3, six headings), by the theorems and by kernel evaluation.
+
+  (`Model/Toc.lean` brings the AST type `Mistletoe.Block` into scope, whose constructors `Block.heading`, … live in
+  this namespace; the scanners of the same name are therefore written `Scan.heading`, `Scan.thematicBreak`, ….)
 -/
 import Mistletoe.Proofs.Wrap
 import Mistletoe.Model.Toc
@@ -29,12 +41,12 @@ open Mistletoe Mistletoe.Py Mistletoe.Scan
 structure NoEarly (s : Str) : Prop where
   html : htmlBlockStart s = .ok none
   bc : blockCodeStart s = false
-  hd : heading s = none
+  hd : Scan.heading s = none
   qt : quoteStart s = false
   cf : codeFenceStart s = none
-  tb : thematicBreak s = false
+  tb : Scan.thematicBreak s = false
   br : startsWith ['['] (lstrip s) = false
-  bl : blankLine s = false
+  bl : Scan.blankLine s = false
 
 section LeadN
 variable {c : Char} (hc : LeadChar c) (n : Nat) (hn : n < 4) (r : Str)
@@ -42,11 +54,11 @@ include hc hn
 
 theorem leadN_upTo3 : upTo3Spaces (List.replicate n ' ' ++ c :: r) = some (n, c :: r) := upTo3_rep n c r hc.n_sp hn
 
-theorem leadN_heading : heading (List.replicate n ' ' ++ c :: r) = none := by
-  unfold heading; rw [leadN_upTo3 hc n hn]; simp [span, hc.n_hash]
+theorem leadN_heading : Scan.heading (List.replicate n ' ' ++ c :: r) = none := by
+  unfold Scan.heading; rw [leadN_upTo3 hc n hn]; simp [span, hc.n_hash]
 
 theorem leadN_codeFence : codeFenceStart (List.replicate n ' ' ++ c :: r) = none := by
-  unfold codeFenceStart codeFence; rw [leadN_upTo3 hc n hn]; simp [hc.n_bt, hc.n_tilde]
+  unfold codeFenceStart Scan.codeFence; rw [leadN_upTo3 hc n hn]; simp [hc.n_bt, hc.n_tilde]
 
 omit hn in
 theorem leadN_quote : quoteStart (List.replicate n ' ' ++ c :: r) = false := by
@@ -60,8 +72,8 @@ theorem leadN_bracket : startsWith ['['] (lstrip (List.replicate n ' ' ++ c :: r
   simp [leadN_lstrip hc n, startsWith, isPrefix_ne _ _ _ _ hc.n_lb]
 
 omit hn in
-theorem leadN_blankLine : blankLine (List.replicate n ' ' ++ c :: r) = false := by
-  simp [blankLine, ws, hc.nsp]
+theorem leadN_blankLine : Scan.blankLine (List.replicate n ' ' ++ c :: r) = false := by
+  simp [Scan.blankLine, ws, hc.nsp]
 
 omit hn in
 theorem leadN_nonblank : isBlank (List.replicate n ' ' ++ c :: r) = false := by simp [isBlank, hc.nsp]
@@ -83,7 +95,7 @@ theorem leadN_html : htmlBlockStart (List.replicate n ' ' ++ c :: r) = .ok none 
   have hlen0 : ¬ ((c :: r).length - (c :: r).length ≥ 4) := by simp
   simpa only [hlen0, if_false] using this
 
-theorem leadN_noEarly (htb : thematicBreak (List.replicate n ' ' ++ c :: r) = false) : NoEarly (List.replicate n ' ' ++ c :: r) :=
+theorem leadN_noEarly (htb : Scan.thematicBreak (List.replicate n ' ' ++ c :: r) = false) : NoEarly (List.replicate n ' ' ++ c :: r) :=
   ⟨leadN_html hc n hn r, leadN_blockCode hc n hn r, leadN_heading hc n hn r, leadN_quote hc n r, leadN_codeFence hc n hn r, htb,
    leadN_bracket hc n r, leadN_blankLine hc n r⟩
 
@@ -152,10 +164,10 @@ theorem title_quiet : Quiet (t ++ ['\n']) := by
 theorem title_nonblank : isBlank (t ++ ['\n']) = false := (title_quiet ht).nb
 
 include hcol in
-theorem dash_thematicBreak : thematicBreak (dashLine col t) = false := by
+theorem dash_thematicBreak : Scan.thematicBreak (dashLine col t) = false := by
   obtain ⟨c, r, rfl, hc, _⟩ := ht
   have hp := alpha_plainChar c hc
-  unfold thematicBreak dashLine
+  unfold Scan.thematicBreak dashLine
   rw [leadN_upTo3 dash_lead col hcol]
   simp [ws, hp.nsp, hp.n_dash]
 
@@ -174,9 +186,9 @@ include hcol in
 theorem dash_parseMarker : parseMarker (dashLine col t) = some (col, col + 2, ['-'], t ++ ['\n']) := by
   obtain ⟨c, r, rfl, hc, _⟩ := ht
   have hp := alpha_plainChar c hc
-  have hli : listItem (dashLine col (c :: r)) =
+  have hli : Scan.listItem (dashLine col (c :: r)) =
       some { g1 := List.replicate col ' ', g2 := ['-'], g3 := [' '], rest := c :: r ++ ['\n'] } := by
-    unfold listItem dashLine
+    unfold Scan.listItem dashLine
     rw [leadN_upTo3 dash_lead col hcol]
     have := span_ws_rep 1 c (r ++ ['\n']) hp.nsp
     simp only [List.replicate_one, List.singleton_append] at this
@@ -681,7 +693,7 @@ theorem list_mem {cfg : Cfg} {tpre tpost : List BTok} (hc : ListCfg cfg tpre tpo
   rw [hc.types]; simp
 
 /-- `Paragraph.read` on the title: one line; the first line of the headings below (if any) interrupts it -/
-theorem readParagraph_title (cfg : Cfg) (tpre tpost : List BTok) (hc : ListCfg cfg tpre tpost) (so : Bool) (t : Str) (ht : PlainTitle t)
+theorem readParagraph_title (cfg : Cfg) (tpre tpost : List BTok) (hc : ListCfg cfg tpre tpost) (so : Bool) (t : Str) (_ht : PlainTitle t)
     (n : Nat) (kids : List O) (hk : oks kids = true) :
     readParagraph cfg so ⟨itemBuf n (.node t kids), 0, n⟩ (t ++ ['\n']) =
       .ok ([t ++ ['\n']], false, ⟨itemBuf n (.node t kids), 1, n⟩) := by
@@ -690,7 +702,7 @@ theorem readParagraph_title (cfg : Cfg) (tpre tpost : List BTok) (hc : ListCfg c
   rw [hn]
   cases kids with
   | nil =>
-    simp [paragraphLoop, FW.remaining, FW.peek, itemBuf, lns]
+    simp [paragraphLoop, FW.peek, itemBuf, lns]
   | cons k ks =>
     have hT : plainTitle k.text = true := by
       cases k; simp only [oks, okO, Bool.and_eq_true] at hk; exact hk.1.1
@@ -699,7 +711,7 @@ theorem readParagraph_title (cfg : Cfg) (tpre tpost : List BTok) (hc : ListCfg c
       simp only [itemBuf]; rw [lns_head]; rfl
     have hi := anyInterrupt_dash_para hT' 2 cfg _ _ hp rfl (by omega) cfg.types (list_mem hc)
     have hnb : isBlank (dashLine 2 k.text) = false := leadN_nonblank dash_lead 2 _
-    simp only [FW.remaining, paragraphLoop, hp, hnb, Bool.false_eq_true, if_false, hi]
+    simp only [paragraphLoop, hp, hnb, Bool.false_eq_true, if_false, hi]
     simp
 
 theorem outline_item_step (cfg : Cfg) (tpre tpost : List BTok) (hc : ListCfg cfg tpre tpost) (t : Str) (kids : List O)
@@ -816,11 +828,13 @@ theorem blockPhase_olines (cfg : Cfg) (gas col : Nat) (os : List O) :
 
 mutual
 /-- the gas used, in closed form: `K + 1` per heading -/
-theorem needO_eq (K : Nat) : ∀ (o : O), needO K o = (K + 1) * sizeO o
-  | .node t kids => by simp only [needO, sizeO, needL_eq K kids, Nat.mul_add]; omega
+theorem needO_eq (K : Nat) : ∀ (o : O), needO K o + 1 = (K + 1) * sizeO o
+  | .node t kids => by simp only [needO, sizeO, needL_eq K kids, Nat.mul_add, Nat.mul_one]; omega
 theorem needL_eq (K : Nat) : ∀ (os : List O), needL K os = (K + 1) * size os
   | [] => rfl
-  | o :: os => by simp only [needL, size, needO_eq K o, needL_eq K os, Nat.mul_add]; omega
+  | o :: os => by
+    have := needO_eq K o
+    simp only [needL, size, needL_eq K os, Nat.mul_add]; omega
 end
 
 /-- **C19, the parse**: for a non-empty outline `os` with plain-word titles, under any block token list that asks
@@ -886,8 +900,8 @@ mutual
 theorem tocLineO (base : Nat) : ∀ (o : O) (d : Nat), (flattenO (base + d) o).map (Toc.tocLine base) = olinesO (4 * d) o
   | .node t kids, d => by
     have ih := tocLineL base kids (d + 1)
-    rw [show 4 * (d + 1) = 4 * d + 4 by omega] at ih
-    simp only [flattenO, olinesO, List.map_cons, ← Nat.add_assoc, ih]
+    rw [show 4 * (d + 1) = 4 * d + 4 by omega, ← Nat.add_assoc] at ih
+    simp only [flattenO, olinesO, List.map_cons, ih]
     simp [Toc.tocLine, dashLine]
 theorem tocLineL (base : Nat) : ∀ (os : List O) (d : Nat), (flatten (base + d) os).map (Toc.tocLine base) = olines (4 * d) os
   | [], _ => rfl
@@ -918,5 +932,379 @@ theorem C19_outline_toc (cfg : Cfg) (tpre tpost : List BTok) (hc : ListCfg cfg t
       .ok ({ entries := [.list (expItems 0 1 os) 1 1], loose := false }, {}) := by
   rw [(C19_outline_lines lv 0 os).2.1]
   exact (C19_outline_parses cfg tpre tpost hc os hne hok gas (by rw [needL_eq]; omega)).2
+
+/-! #### Heading lists that are outlines -/
+
+/-- recursive descent over a heading list: the forest of the headings from the front of `hs` that form an outline
+    with top level `lv`, and the headings left over (`fuel`: one unit per heading suffices) -/
+def build : Nat → Nat → List (Nat × Str) → List O × List (Nat × Str)
+  | 0, _, hs => ([], hs)
+  | _ + 1, _, [] => ([], [])
+  | fuel + 1, lv, (l, t) :: rest =>
+    if l = lv then
+      let r1 := build fuel (lv + 1) rest
+      let r2 := build fuel lv r1.2
+      (.node t r1.1 :: r2.1, r2.2)
+    else ([], (l, t) :: rest)
+
+/-- the outline of a heading list (top level: the level of the first heading) -/
+def toForest (hs : List (Nat × Str)) : List O :=
+  match hs with
+  | [] => []
+  | h :: _ => (build hs.length h.1 hs).1
+
+/-- the heading list is an outline: not empty, and the descent from the level of the first heading uses it up
+    (`isOutline_iff`: exactly the flattenings of the non-empty forests; in words: no heading is shallower than
+    the first one, and no heading is more than one level deeper than the heading before it) -/
+def isOutline (hs : List (Nat × Str)) : Bool :=
+  match hs with
+  | [] => false
+  | h :: _ => (build hs.length h.1 hs).2.isEmpty
+
+theorem build_sound : ∀ (fuel lv : Nat) (hs : List (Nat × Str)),
+    hs = flatten lv (build fuel lv hs).1 ++ (build fuel lv hs).2
+  | 0, _, _ => by simp [build, flatten]
+  | _ + 1, _, [] => by simp [build, flatten]
+  | fuel + 1, lv, (l, t) :: rest => by
+    simp only [build]
+    split
+    · rename_i h
+      subst h
+      have h1 := build_sound fuel (l + 1) rest
+      have h2 := build_sound fuel l (build fuel (l + 1) rest).2
+      simp only [flatten, flattenO, List.cons_append, List.append_assoc]
+      rw [← h2, ← h1]
+    · simp [flatten]
+
+/-- what may follow the headings of a forest of top level `lv`: nothing, or a shallower heading -/
+def RestOk (lv : Nat) (rest : List (Nat × Str)) : Prop := ∀ h, rest.head? = some h → h.1 < lv
+
+theorem build_stop (fuel lv : Nat) (rest : List (Nat × Str)) (hr : RestOk lv rest) : build fuel lv rest = ([], rest) := by
+  cases fuel with
+  | zero => rfl
+  | succ f =>
+    cases rest with
+    | nil => rfl
+    | cons h rest =>
+      obtain ⟨l, t⟩ := h
+      have := hr (l, t) rfl
+      simp only [build]
+      rw [if_neg (by simp only at this; omega)]
+
+theorem restOk_flatten (lv : Nat) (os : List O) (rest : List (Nat × Str)) (hr : RestOk lv rest) :
+    RestOk (lv + 1) (flatten lv os ++ rest) := by
+  intro h hh
+  cases os with
+  | nil =>
+    simp only [flatten, List.nil_append] at hh
+    have := hr h hh; omega
+  | cons o os =>
+    cases o with
+    | node t kids =>
+      simp only [flatten, flattenO, List.cons_append, List.head?_cons, Option.some.injEq] at hh
+      subst hh; exact Nat.lt_succ_self _
+
+mutual
+theorem build_flattenO : ∀ (o : O) (fuel lv : Nat) (tail : List (Nat × Str)), sizeO o ≤ fuel + 1 → RestOk (lv + 1) tail →
+    build (fuel + 1) lv (flattenO lv o ++ tail) = (o :: (build fuel lv tail).1, (build fuel lv tail).2)
+  | .node t kids, fuel, lv, tail, hf, hr => by
+    simp only [sizeO] at hf
+    simp only [flattenO, List.cons_append, build, if_true]
+    rw [build_flatten kids fuel (lv + 1) tail (by omega) hr]
+theorem build_flatten : ∀ (os : List O) (fuel lv : Nat) (rest : List (Nat × Str)), size os ≤ fuel → RestOk lv rest →
+    build fuel lv (flatten lv os ++ rest) = (os, rest)
+  | [], fuel, lv, rest, _, hr => by simp only [flatten, List.nil_append]; exact build_stop fuel lv rest hr
+  | o :: os, fuel, lv, rest, hf, hr => by
+    simp only [size] at hf
+    have ho : 0 < sizeO o := by cases o; simp [sizeO]
+    obtain ⟨f, rfl⟩ : ∃ f, fuel = f + 1 := ⟨fuel - 1, by omega⟩
+    simp only [flatten, List.append_assoc]
+    rw [build_flattenO o f lv _ (by omega) (restOk_flatten lv os rest hr), build_flatten os f lv rest (by omega) hr]
+end
+
+mutual
+theorem flattenO_length (lv : Nat) : ∀ (o : O), (flattenO lv o).length = sizeO o
+  | .node t kids => by simp [flattenO, sizeO, flatten_length (lv + 1) kids]
+theorem flatten_length (lv : Nat) : ∀ (os : List O), (flatten lv os).length = size os
+  | [] => rfl
+  | o :: os => by simp [flatten, size, flattenO_length lv o, flatten_length lv os]
+end
+
+theorem flatten_head (lv : Nat) (o : O) (os : List O) : ∃ t tl, flatten lv (o :: os) = (lv, t) :: tl := by
+  cases o with
+  | node t kids => exact ⟨t, flatten (lv + 1) kids ++ flatten lv os, by simp [flatten, flattenO]⟩
+
+/-- the descent recovers the forest from its flattening -/
+theorem toForest_flatten (lv : Nat) (os : List O) (hne : os ≠ []) :
+    toForest (flatten lv os) = os ∧ isOutline (flatten lv os) = true := by
+  cases os with
+  | nil => exact absurd rfl hne
+  | cons o os =>
+    obtain ⟨t, tl, e⟩ := flatten_head lv o os
+    have hb := build_flatten (o :: os) (flatten lv (o :: os)).length lv [] (by rw [flatten_length]; exact Nat.le_refl _)
+      (by intro h hh; cases hh)
+    rw [List.append_nil] at hb
+    unfold toForest isOutline
+    rw [e] at hb ⊢
+    simp only [List.length_cons] at hb
+    simp [hb]
+
+/-- an outline is the flattening of its forest, which is not empty -/
+theorem isOutline_sound (hs : List (Nat × Str)) (h : isOutline hs = true) :
+    toForest hs ≠ [] ∧ ∃ lv, hs.head?.map (·.1) = some lv ∧ hs = flatten lv (toForest hs) := by
+  cases hs with
+  | nil => simp [isOutline] at h
+  | cons x xs =>
+    have hs := build_sound (x :: xs).length x.1 (x :: xs)
+    simp only [isOutline, List.isEmpty_iff] at h
+    rw [h, List.append_nil] at hs
+    simp only [toForest]
+    refine ⟨?_, x.1, rfl, hs⟩
+    intro e
+    rw [e] at hs
+    simp [flatten] at hs
+
+/-- the outlines are exactly the flattenings of the non-empty forests -/
+theorem isOutline_iff (hs : List (Nat × Str)) : isOutline hs = true ↔ ∃ lv os, os ≠ [] ∧ hs = flatten lv os := by
+  constructor
+  · intro h
+    obtain ⟨hne, lv, _, e⟩ := isOutline_sound hs h
+    exact ⟨lv, _, hne, e⟩
+  · rintro ⟨lv, os, hne, rfl⟩
+    exact (toForest_flatten lv os hne).2
+
+/-- no heading is shallower than `base`, and none is more than one level deeper than the heading before it (`prev`) -/
+def levelsOk (base : Nat) : Nat → List (Nat × Str) → Bool
+  | _, [] => true
+  | prev, (l, _) :: rest => decide (base ≤ l) && decide (l ≤ prev + 1) && levelsOk base l rest
+
+/-- the elementary description of an outline: not empty, no heading shallower than the first one, no heading more
+    than one level deeper than the heading before it -/
+def outlineLevels (hs : List (Nat × Str)) : Bool :=
+  match hs with
+  | [] => false
+  | (l, _) :: rest => levelsOk l l rest
+
+theorem levelsOk_head (base prev : Nat) (hs : List (Nat × Str)) (h : levelsOk base prev hs = true) :
+    ∀ x, hs.head? = some x → base ≤ x.1 ∧ x.1 ≤ prev + 1 := by
+  intro x hx
+  cases hs with
+  | nil => cases hx
+  | cons y ys =>
+    obtain ⟨l, t⟩ := y
+    simp only [List.head?_cons, Option.some.injEq] at hx
+    subst hx
+    simp only [levelsOk, Bool.and_eq_true, decide_eq_true_eq] at h
+    exact ⟨h.1.1, h.1.2⟩
+
+theorem build_levels (base : Nat) : ∀ (fuel lv prev : Nat) (hs : List (Nat × Str)), levelsOk base prev hs = true →
+    (∀ x, hs.head? = some x → x.1 ≤ lv) → hs.length ≤ fuel →
+    RestOk lv (build fuel lv hs).2 ∧ (∃ prev', levelsOk base prev' (build fuel lv hs).2 = true) ∧
+      (build fuel lv hs).2.length ≤ hs.length
+  | 0, lv, prev, hs, hl, _, hf => by
+    have : hs = [] := List.eq_nil_of_length_eq_zero (by omega)
+    subst this
+    exact ⟨(by intro h hh; cases hh), ⟨prev, rfl⟩, Nat.le_refl _⟩
+  | _ + 1, lv, prev, [], _, _, _ => ⟨(by intro h hh; cases hh), ⟨prev, rfl⟩, Nat.le_refl _⟩
+  | fuel + 1, lv, prev, (l, t) :: rest, hl, hh, hf => by
+    have hle := hh (l, t) rfl
+    simp only [build]
+    split
+    · rename_i e
+      subst e
+      have hl' : levelsOk base l rest = true := by
+        simp only [levelsOk, Bool.and_eq_true] at hl; exact hl.2
+      simp only [List.length_cons] at hf
+      obtain ⟨a1, ⟨p1, b1⟩, c1⟩ := build_levels base fuel (l + 1) l rest hl'
+        (fun x hx => (levelsOk_head base l rest hl' x hx).2) (by omega)
+      obtain ⟨a2, b2, c2⟩ := build_levels base fuel l p1 (build fuel (l + 1) rest).2 b1
+        (fun x hx => by have := a1 x hx; omega) (by omega)
+      exact ⟨a2, b2, by simp only [List.length_cons]; omega⟩
+    · rename_i e
+      refine ⟨?_, ⟨prev, hl⟩, Nat.le_refl _⟩
+      intro x hx
+      simp only [List.head?_cons, Option.some.injEq] at hx
+      subst hx
+      simp only at hle ⊢; omega
+
+mutual
+theorem levelsOk_flattenO (base : Nat) : ∀ (o : O) (lv prev : Nat) (rest : List (Nat × Str)), base ≤ lv → lv ≤ prev + 1 →
+    (∀ prev', lv ≤ prev' + 1 → levelsOk base prev' rest = true) → levelsOk base prev (flattenO lv o ++ rest) = true
+  | .node t kids, lv, prev, rest, hb, hp, hc => by
+    simp only [flattenO, List.cons_append, levelsOk, Bool.and_eq_true, decide_eq_true_eq]
+    exact ⟨⟨hb, hp⟩, levelsOk_flatten base kids (lv + 1) lv rest (by omega) (Nat.le_refl _) (fun p hp' => hc p (by omega))⟩
+theorem levelsOk_flatten (base : Nat) : ∀ (os : List O) (lv prev : Nat) (rest : List (Nat × Str)), base ≤ lv → lv ≤ prev + 1 →
+    (∀ prev', lv ≤ prev' + 1 → levelsOk base prev' rest = true) → levelsOk base prev (flatten lv os ++ rest) = true
+  | [], lv, prev, rest, _, hp, hc => by simp only [flatten, List.nil_append]; exact hc prev hp
+  | o :: os, lv, prev, rest, hb, hp, hc => by
+    simp only [flatten, List.append_assoc]
+    exact levelsOk_flattenO base o lv prev _ hb hp (fun p hp' => levelsOk_flatten base os lv p rest hb hp' hc)
+end
+
+/-- `isOutline`, in elementary terms -/
+theorem isOutline_eq_levels (hs : List (Nat × Str)) : isOutline hs = outlineLevels hs := by
+  cases h : outlineLevels hs with
+  | true =>
+    cases hs with
+    | nil => simp [outlineLevels] at h
+    | cons x xs =>
+      obtain ⟨l, t⟩ := x
+      simp only [outlineLevels] at h
+      have hl : levelsOk l l ((l, t) :: xs) = true := by simp [levelsOk, h]
+      obtain ⟨a, ⟨p, b⟩, _⟩ := build_levels l ((l, t) :: xs).length l l ((l, t) :: xs) hl
+        (fun x hx => by simp only [List.head?_cons, Option.some.injEq] at hx; subst hx; exact Nat.le_refl _) (Nat.le_refl _)
+      simp only [isOutline, List.isEmpty_iff]
+      cases hr : (build ((l, t) :: xs).length l ((l, t) :: xs)).2 with
+      | nil => rfl
+      | cons y ys =>
+        rw [hr] at a b
+        have h1 := a y rfl
+        have h2 := (levelsOk_head l p _ b y rfl).1
+        omega
+  | false =>
+    cases ho : isOutline hs with
+    | false => rfl
+    | true =>
+      obtain ⟨lv, os, hne, rfl⟩ := (isOutline_iff hs).mp ho
+      cases os with
+      | nil => exact absurd rfl hne
+      | cons o os =>
+        cases o with
+        | node t kids =>
+          have := levelsOk_flatten lv (.node t kids :: os) lv lv [] (Nat.le_refl _) (by omega) (fun _ _ => rfl)
+          simp only [List.append_nil, flatten, flattenO, List.cons_append, levelsOk, Bool.and_eq_true] at this
+          simp only [outlineLevels, flatten, flattenO, List.cons_append, this.2] at h
+          cases h
+
+mutual
+theorem okO_of_flatten (lv : Nat) : ∀ (o : O), (∀ h ∈ flattenO lv o, plainTitle h.2 = true) → okO o = true
+  | .node t kids => by
+    intro h
+    simp only [flattenO, List.mem_cons] at h
+    simp only [okO, Bool.and_eq_true]
+    exact ⟨h (lv, t) (Or.inl rfl), oks_of_flatten (lv + 1) kids (fun x hx => h x (Or.inr hx))⟩
+theorem oks_of_flatten (lv : Nat) : ∀ (os : List O), (∀ h ∈ flatten lv os, plainTitle h.2 = true) → oks os = true
+  | [] => fun _ => rfl
+  | o :: os => by
+    intro h
+    simp only [flatten, List.mem_append] at h
+    simp only [oks, Bool.and_eq_true]
+    exact ⟨okO_of_flatten lv o (fun x hx => h x (Or.inl hx)), oks_of_flatten lv os (fun x hx => h x (Or.inr hx))⟩
+end
+
+/-- **C19, nesting by level**: if the collected headings `hs` form an outline (`isOutline`: not empty, no heading
+    shallower than the first, none more than one level deeper than the one before it - `isOutline_iff`) and every
+    text is a plain-word title, then `block_token.tokenize` on the list lines `TocRenderer.toc` builds
+    (`Toc.tocLines hs`) gives exactly one `List`, and that list is nested exactly as the outline `toForest hs`:
+    one item per heading, a heading's item holding a `Paragraph` with its text and - iff deeper headings follow
+    it - one nested `List` with the items of the headings one level below it. -/
+theorem C19_toc_nested (cfg : Cfg) (tpre tpost : List BTok) (hc : ListCfg cfg tpre tpost) (hs : List (Nat × Str))
+    (ho : isOutline hs = true) (ht : ∀ h ∈ hs, plainTitle h.2 = true)
+    (gas : Nat) (hg : (cfg.types.length + 5) * hs.length + cfg.types.length + 4 ≤ gas) :
+    blockPhase cfg gas (Toc.tocLines hs) =
+      .ok ({ entries := [.list (expItems 0 1 (toForest hs)) 1 1], loose := false }, {}) := by
+  obtain ⟨hne, lv, _, e⟩ := isOutline_sound hs ho
+  have hok : oks (toForest hs) = true := oks_of_flatten lv _ (by rw [← e]; exact ht)
+  have hlen : hs.length = size (toForest hs) := by
+    have := flatten_length lv (toForest hs)
+    rw [← e] at this; exact this
+  have := C19_outline_toc cfg tpre tpost hc lv (toForest hs) hne hok gas (by rw [← hlen]; exact hg)
+  rw [← e] at this
+  exact this
+
+/-! #### The token lists in force -/
+
+/-- the block token lists under which `toc` runs - inside an `HtmlRenderer`/`TocRenderer` context, or after it
+    (the default list) - ask `List` before `Table` and `Paragraph` -/
+theorem C19_config_current_list :
+    (∃ cfg, Config.html = some cfg ∧
+      ListCfg cfg.block [.htmlBlock, .blockCode, .heading, .quote, .codeFence, .thematicBreak] [.table, .footnote, .paragraph])
+    ∧ (∃ cfg, Config.cfgOf Gen.RenderMaps.tocBlockTokens Gen.RenderMaps.tocSpanTokens = some cfg ∧
+      ListCfg cfg.block [.htmlBlock, .blockCode, .heading, .quote, .codeFence, .thematicBreak] [.table, .footnote, .paragraph])
+    ∧ (∃ cfg, Config.cfgOf Gen.RenderMaps.tocBlockTokensAfterExit Gen.RenderMaps.tocSpanTokensAfterExit = some cfg ∧
+      ListCfg cfg.block [.blockCode, .heading, .quote, .codeFence, .thematicBreak] [.table, .footnote, .paragraph])
+    ∧ (∃ cfg, Config.default = some cfg ∧
+      ListCfg cfg.block [.blockCode, .heading, .quote, .codeFence, .thematicBreak] [.table, .footnote, .paragraph]) := by
+  refine ⟨⟨_, rfl, ⟨rfl, ?_, ?_, ?_, ?_⟩⟩, ⟨_, rfl, ⟨rfl, ?_, ?_, ?_, ?_⟩⟩, ⟨_, rfl, ⟨rfl, ?_, ?_, ?_, ?_⟩⟩, ⟨_, rfl, ⟨rfl, ?_, ?_, ?_, ?_⟩⟩⟩ <;> decide
+
+/-! #### Non-vacuity: a concrete outline (depth 3, six headings) -/
+
+/-- `## Intro / ### Setup / #### Linux / ### Usage / ## Api / ### Core` -/
+def sampleForest : List O :=
+  [.node "Intro".toList [.node "Setup".toList [.node "Linux".toList []], .node "Usage".toList []],
+   .node "Api".toList [.node "Core".toList []]]
+
+def sampleHeadings : List (Nat × Str) :=
+  [(2, "Intro".toList), (3, "Setup".toList), (4, "Linux".toList), (3, "Usage".toList), (2, "Api".toList), (3, "Core".toList)]
+
+/-- the block token list while a `TocRenderer` is active (`C19_config_current_list`) -/
+def sampleCfg : Cfg :=
+  { types := [.htmlBlock, .blockCode, .heading, .quote, .codeFence, .thematicBreak, .list, .table, .footnote, .paragraph] }
+
+theorem sampleCfg_list : ListCfg sampleCfg [.htmlBlock, .blockCode, .heading, .quote, .codeFence, .thematicBreak]
+    [.table, .footnote, .paragraph] := ⟨rfl, by decide, by decide, by decide, by decide⟩
+
+/-- the list `TocRenderer.toc` returns for the sample (what /repo returns, too: line numbers 1..6, nested items at
+    indentation 2 with content offset 4) -/
+def sampleToc : Entry :=
+  .list [
+    .mk [.paragraph ["Intro\n".toList] 1 1,
+         .list [
+           .mk [.paragraph ["Setup\n".toList] 2 2,
+                .list [.mk [.paragraph ["Linux\n".toList] 3 3] false 2 4 ['-'] 3 3] 3 3] false 2 4 ['-'] 2 2,
+           .mk [.paragraph ["Usage\n".toList] 4 4] false 2 4 ['-'] 4 4] 2 2] false 0 2 ['-'] 1 1,
+    .mk [.paragraph ["Api\n".toList] 5 5,
+         .list [.mk [.paragraph ["Core\n".toList] 6 6] false 2 4 ['-'] 6 6] 6 6] false 0 2 ['-'] 5 5] 1 1
+
+example : oks sampleForest = true := by decide
+example : flatten 2 sampleForest = sampleHeadings := by decide
+example : isOutline sampleHeadings = true ∧ outlineLevels sampleHeadings = true := by decide
+example : toForest sampleHeadings = sampleForest := rfl
+example : (∀ h ∈ sampleHeadings, plainTitle h.2 = true) := by decide
+example : Toc.tocLines sampleHeadings =
+    ["- Intro\n".toList, "    - Setup\n".toList, "        - Linux\n".toList, "    - Usage\n".toList, "- Api\n".toList,
+     "    - Core\n".toList] := by decide
+example : Entry.list (expItems 0 1 sampleForest) 1 1 = sampleToc := rfl
+/-- a heading list that is not an outline: the second heading is two levels deeper than the first -/
+example : isOutline [(2, "A".toList), (4, "B".toList)] = false := by decide
+
+/-- `C19_outline_parses` on the sample -/
+example : blockPhase sampleCfg 104 (olines 0 sampleForest) = .ok ({ entries := [sampleToc], loose := false }, {}) :=
+  (C19_outline_parses sampleCfg _ _ sampleCfg_list sampleForest (by simp [sampleForest]) (by decide) 104 (by decide)).2
+
+/-- `C19_toc_nested` on the sample -/
+example : blockPhase sampleCfg 104 (Toc.tocLines sampleHeadings) = .ok ({ entries := [sampleToc], loose := false }, {}) :=
+  C19_toc_nested sampleCfg _ _ sampleCfg_list sampleHeadings (by decide) (by decide) 104 (by decide)
+
+mutual
+/-- equality test on the buffers that occur here (paragraphs and lists) -/
+def sameEntry : Entry → Entry → Bool
+  | .paragraph a l o, .paragraph a' l' o' => a == a' && l == l' && o == o'
+  | .list is l o, .list is' l' o' => sameItems is is' && l == l' && o == o'
+  | _, _ => false
+def sameItems : List Item → List Item → Bool
+  | [], [] => true
+  | i :: is, i' :: is' => sameItem i i' && sameItems is is'
+  | _, _ => false
+def sameItem : Item → Item → Bool
+  | .mk inner lo ind pre ld ln og, .mk inner' lo' ind' pre' ld' ln' og' =>
+    sameEntries inner inner' && lo == lo' && ind == ind' && pre == pre' && ld == ld' && ln == ln' && og == og'
+def sameEntries : List Entry → List Entry → Bool
+  | [], [] => true
+  | e :: es, e' :: es' => sameEntry e e' && sameEntries es es'
+  | _, _ => false
+end
+
+def sameRes : Res (Buf × St) → List Entry → Bool
+  | .ok (b, st), es => sameEntries b.entries es && !b.loose && st.setext && st.defs.isEmpty
+  | .err _, _ => false
+
+/-- the same by evaluating the model in the kernel, independently of the theorems: the block phase on the six toc
+    lines returns the nested list -/
+example : sameRes (blockPhase sampleCfg 104 (Toc.tocLines sampleHeadings)) [sampleToc] = true := by decide +kernel
+
+/-- the evaluation does tell nestings apart: the flat list of six items is not what comes out -/
+example : sameRes (blockPhase sampleCfg 104 (Toc.tocLines sampleHeadings))
+    [.list (expItems 0 1 (sampleHeadings.map (fun h => O.node h.2 []))) 1 1] = false := by decide +kernel
 
 end Mistletoe.Block
